@@ -280,3 +280,68 @@ def check_keyed_closures(repo, chk, rule="L-late"):
     if n < 1:
         raise AnalysisError("%s: no method of tf_pwa/data.py stores into a cache keyed by a parameter (anchor vanished)" % rule)
     chk.require_count(rule, 1)
+
+
+def check_multifile_reader(repo, chk, rule="R-multi"):
+    """momenta spread over several files (each file: a group of particles, all events) are read back particle by particle"""
+    import ast as _ast
+
+    import numpy as _np
+    import sympy as _sp
+
+    from ..sym import Raised, Translator, Unmodelled
+
+    chk.rule(rule, "load_dat_file interpreted on symbolic file contents - three particles, two and three events, stored as one file (a b c), two files (a | b c), (a b | c) and three files (a | b | c), each file event-major with its own particles: the entry of particle p holds, event by event, the four components that were stored for p (several files mean several GROUPS OF PARTICLES of the same events, not more rows of one table)")
+    fn = repo.fn("tf_pwa/data.py::load_dat_file")
+    parts = ["a", "b", "c"]
+    bad = None
+    n = 0
+    for n_ev in (2, 3):
+        for groups in ([["a", "b", "c"]], [["a"], ["b", "c"]], [["a", "b"], ["c"]], [["a"], ["b"], ["c"]]):
+            files = {}
+            for gi, grp in enumerate(groups):
+                rows = [[_sp.Symbol("%s_e%d_%s" % (p, e, comp)) for comp in "txyz"] for e in range(n_ev) for p in grp]
+                files["file%d.dat" % gi] = _np.array(rows, dtype=object)
+
+            def load(tr, d, args, kwargs, node):
+                last = d.split(".")[-1]
+                if last in ("loadtxt", "load") and args and isinstance(args[0], str) and args[0] in files:
+                    return files[args[0]].copy()
+                return NotImplemented
+
+            def isinst(tr, args, kwargs, node):
+                kinds = _ast.unparse(node.args[1])
+                v = args[0]
+                if "str" in kinds and isinstance(v, str):
+                    return True
+                if "Iterable" in kinds or "list" in kinds or "tuple" in kinds:
+                    return isinstance(v, (list, tuple)) or ("Iterable" in kinds and isinstance(v, str))
+                return False
+
+            hooks = {"numeric_call_first": load, "builtin.isinstance": isinst, "allow_raise": True, "allow_shape": True, "concrete_zeros": True, "stack_as_array": True}
+            for g in repo.func_by_name.get("get_config", []):
+                hooks[g.key] = lambda tr, args, kwargs, node: "float64"
+            tr = Translator(repo, hooks=hooks, max_depth=2)
+            names = list(files) if len(files) > 1 else list(files)[0]
+            try:
+                out = tr.call_fn(fn, [names, list(parts)], {"dtype": "float64"})
+            except Unmodelled as e:
+                raise AnalysisError("load_dat_file cannot be interpreted (%d events, files %s): %s" % (n_ev, groups, e))
+            except Raised as e:
+                out = "raises %s" % e
+            n += 1
+            why = None
+            if not isinstance(out, dict) or sorted(out, key=str) != parts:
+                why = "the result is %r" % (out if not isinstance(out, dict) else sorted(out, key=str),)
+            else:
+                for p in parts:
+                    arr = _np.asarray(out[p], dtype=object)
+                    want = _np.array([[_sp.Symbol("%s_e%d_%s" % (p, e, comp)) for comp in "txyz"] for e in range(n_ev)], dtype=object)
+                    if arr.shape != want.shape or any(a_ != w_ for a_, w_ in zip(arr.reshape(-1), want.reshape(-1))):
+                        why = "particle %s gets %s, stored was %s" % (p, arr.tolist() if arr.size <= 12 else arr.reshape(-1)[:8].tolist(), want.tolist() if want.size <= 12 else want.reshape(-1)[:8].tolist())
+                        break
+            if why and bad is None:
+                bad = "%d events in the files %s: %s" % (n_ev, " | ".join(" ".join(g_) for g_ in groups), why)
+    chk.oblige(rule, "load_dat_file returns every particle's own momenta for %d (events, file grouping) combinations" % n, bad is None)
+    if bad:
+        chk.violation(rule, fn.key, "multi-file", "%s - reading momenta back from several files gives the particles each other's momenta (same shapes, same keys: nothing raises)" % bad, file="tf_pwa/data.py", line=fn.lineno)
